@@ -53,6 +53,26 @@ resolves the reference to item i, the other dimension must be displayed in an or
 of item i as the sorted partition reports it (ties free) - the stale fallback used to be the only absolute
 statement about this slot.  Recorded in the distribution as `aliasless:*`,
 `checked:opposing-sorted-by-the-resolved-item` and in `coverage.aliasless_scope`.
+
+Rows sorted by an item of the opposing array, every array kind on the columns (added for seeded change C19-12:
+`_BaseOrderHelper.row_display_order` picked the helper that translates an `opposing_insertion` reference to
+an array item - `_SortRowsByDerivedColumnHelper`, one of the property's anchors - for MR_SUBVAR columns only
+instead of every array type, so that with categorical-array columns every spelling was looked up among the
+non-existent subtotals and the sort silently fell back to payload order: all spellings agree, only an absolute
+statement notices).  The generator had an array on the COLUMNS only as CAT x MR and asked for
+`opposing_insertion` on ~2% of the dimensions, and the absolute leg ran for `opposing_element` alone.  Class
+added (`gen_opparray_case` / `opparray_dims` / `opparray_jobs`, own random stream `seed + 29`): slices whose
+columns are MR_SUBVAR (CAT x MR), CA_SUBVAR of the transposed array cube (CA_CAT x CA_SUBVAR,
+tests/fixtures/ca-cat-x-ca-subvar.json) and CA_SUBVAR of a 3-D cube (CAT x CA_CAT x CA_SUBVAR), element ids
+one-based / zero-based / sparse / shuffled, with and without one item flagged `derived` (numeric arrays cannot
+be columns: the library always puts that dimension first); every item x sort type {opposing_insertion,
+opposing_element} x direction {descending, ascending} x every spelling the model resolves to the item (alias =
+base, sub-variable id, element id int / str, position) + one stale reference per sort type.  Oracle: the
+relational leg (every spelling = the alias spelling) and `opposing_absolute_fail`, now also for
+`opposing_insertion` orders of the rows that reference an item of the array on the columns (the unchanged
+library sorts by the item for all three array types; there is no such translation for an array on the rows).
+Recorded as `opposing-array-item:*`, `checked:opposing_insertion-sorted-by-the-resolved-array-item` and in
+`coverage.opposing_array_item_scope`.
 """
 import copy
 import json
@@ -528,6 +548,109 @@ def aliasless_jobs(case):
 
 
 # ------------------------------------------------------------------------------------
+# sort the rows by an item of the opposing ARRAY dimension (array of every kind on the columns)
+# ------------------------------------------------------------------------------------
+
+OPPARRAY_LAYOUTS = ["cat_x_mr", "ca_cat_x_ca_sv", "cat_x_ca_cat_x_ca_sv"]
+OPPARRAY_IDS = ["one", "zero", "sparse", "shuffled"]
+OPPARRAY_DERIVED = ["none", "one-item", "none"]
+
+
+def transpose_last_two(resp, shape):
+    """The same cube with its last two dimensions swapped (dimension dicts and every flat row-major data
+    vector): what zz9 sends for the transposed array cube, tests/fixtures/ca-cat-x-ca-subvar.json."""
+    res = resp["result"]
+    n_dims = len(res["dimensions"])
+    assert len(shape) == n_dims
+    res["dimensions"][-2], res["dimensions"][-1] = res["dimensions"][-1], res["dimensions"][-2]
+    a, b = shape[-2], shape[-1]
+    outer = 1
+    for s in shape[:-2]:
+        outer *= s
+
+    def tr(data):
+        assert len(data) == outer * a * b
+        return [data[o * a * b + i * b + j] for o in range(outer) for j in range(b) for i in range(a)]
+
+    res["counts"] = tr(res["counts"])
+    for m in res["measures"].values():
+        m["data"] = tr(m["data"])
+    return resp
+
+
+def gen_opparray_case(rng, k, layout, n_items, ids, derived):
+    """A cube whose slices have an ARRAY dimension on the COLUMNS - multiple response (CAT x MR), the
+    categorical array with its items as columns (CA_CAT x CA_SUBVAR, the transposed array cube) and the 3-D
+    cube ending in CA_CAT x CA_SUBVAR - and 3-4 rows with enough respondents for a sort of the rows by one
+    column to differ from payload order.  `derived`: one item carries zz9's "derived" flag (a computed
+    sub-variable the user sees as a subtotal - what a client references with `opposing_insertion`)."""
+    kind = "mr" if layout == "cat_x_mr" else "ca"
+    eids = U.scheme_ids(rng, n_items, ids)
+    sv_names = rng.random() < 0.25
+    items = [{"id": eids[j], "subvar_id": ("m_sv%d" % j) if sv_names else "%04d" % (j + 1),
+              "alias": "m_i%d" % j, "name": "Item %s" % "ABCDEFGH"[j], "missing": False}
+             for j in range(n_items)]
+    if derived == "one-item":
+        items[rng.randrange(n_items)]["derived"] = True
+    if kind == "mr":
+        v = gen.Var(kind="mr", alias="m", name="M", items=items)
+    else:
+        c0 = gen.make_cat(rng, "m", n_valid=rng.randint(3, 4), n_missing=rng.choice([0, 0, 1]))
+        v = gen.Var(kind="ca", alias="m", name="M", items=items, cats=c0.cats)
+    variables, aliases = [v], ["m"]
+    if layout == "cat_x_mr":
+        cat = gen.make_cat(rng, "c", n_valid=rng.randint(3, 4), n_missing=rng.choice([0, 0, 1]))
+        variables, aliases = [cat, v], ["c", "m"]
+    elif layout == "cat_x_ca_cat_x_ca_sv":
+        cat = gen.make_cat(rng, "c", n_valid=rng.randint(1, 2), n_missing=0)
+        variables, aliases = [cat, v], ["c", "m"]
+    sv = gen.Survey(variables, rng.randint(30, 60), rng)
+    resp = gen.cube_response(sv, aliases)
+    dims = resp["result"]["dimensions"]
+    if kind == "ca":
+        shape = tuple(s for a in aliases for s in gen.var_shape(sv.var(a)))
+        transpose_last_two(resp, shape)
+    raw_idx = {"cat_x_mr": 1, "ca_cat_x_ca_sv": 1, "cat_x_ca_cat_x_ca_sv": 2}[layout]
+    d = U.adim_of_dimension_dict(dims[raw_idx], kind == "mr")
+    return {"k": k, "layout": layout, "response": resp, "adim": d, "cube_dim": raw_idx,
+            "akey": "columns_dimension", "okey": "rows_dimension", "values": "counts", "kind": kind,
+            "opparray": derived}
+
+
+def opparray_dims(rng, quick):
+    """Every array kind the generator can put on the columns x element-id scheme x derived flag."""
+    out = []
+    k = 300000
+    for layout in OPPARRAY_LAYOUTS:
+        for ids in (OPPARRAY_IDS if quick else OPPARRAY_IDS * 3):
+            n = rng.randint(2, 3) if quick else rng.randint(1, 5)
+            case = gen_opparray_case(rng, k, layout, n, ids, rng.choice(OPPARRAY_DERIVED))
+            k += 1
+            out.append((case, opparray_jobs))
+    return out
+
+
+def opparray_jobs(case):
+    """every item x {opposing_insertion, opposing_element} x {descending, ascending} - one of the two
+    directions differs from payload order - x every spelling the model resolves to the item, against the
+    alias spelling; plus one stale reference per sort type (payload-order fallback)."""
+    al = U.aliases(case["adim"])
+    eq = case["eq"]
+    for typ in ("opposing_insertion", "opposing_element"):
+        for k in range(len(al)):
+            if case["adim"]["items"][k]["missing"] or not eq[k]:
+                continue
+            alts = [x for x in eq[k] if not U.py_eq(x, al[k])]
+            for direction in (None, "ascending"):
+                slots = {"opposing": (typ, (k, al[k]))}
+                if direction:
+                    slots["opposing_direction"] = direction
+                yield slots, spell(slots), [spell(slots, (lambda kk, x, a=a: a)) for a in alts]
+        slots = {"opposing": (typ, (None, "zz-stale"))}
+        yield slots, spell(slots), []
+
+
+# ------------------------------------------------------------------------------------
 # comparison helpers
 # ------------------------------------------------------------------------------------
 
@@ -613,7 +736,10 @@ def run(tier, seed):
     # alias-less arrays (scorecard / fused-variables shape), own random stream
     aliasless = aliasless_dims(random.Random(seed + 23), not thorough)
     al_cases = [c for c, _ in aliasless]
-    all_cases = cases + ex_cases + al_cases
+    # rows sorted by an item of the opposing array dimension, array of every kind on the columns; own stream
+    opparray = opparray_dims(random.Random(seed + 29), not thorough)
+    oa_cases = [c for c, _ in opparray]
+    all_cases = cases + ex_cases + al_cases + oa_cases
 
     # ---- phase 1: the cascade itself -------------------------------------------------
     terms, index = [], []
@@ -683,6 +809,10 @@ def run(tier, seed):
         rep.dist("mr_ins" if d["mr_ins"] else "no-mr-ins")
         if any(it["ins"] for it in d["items"]):
             rep.dist("has-derived-items")
+        if case.get("opparray"):
+            rep.dist("opposing-array-item:columns=%s" % {"mr": "MR_SUBVAR", "ca": "CA_SUBVAR"}[case["kind"]])
+            rep.dist("opposing-array-item:layout=%s" % case["layout"])
+            rep.dist("opposing-array-item:derived-flag=%s" % case["opparray"])
         if case.get("aliasless"):
             rep.dist("aliasless:ids=%s" % case["aliasless"])
             rep.dist("aliasless:layout=%s" % case["layout"])
@@ -728,12 +858,13 @@ def run(tier, seed):
                 variants.append(v)
         jobs.append({"case": case, "slots": slots, "base": base, "variants": variants,
                      "malformed": False, "exhaustive": False})
-    for case, exjobs in exhaustive + aliasless:
+    for case, exjobs in exhaustive + aliasless + opparray:
         if case.get("dead"):
             continue
         for slots, base, variants in exjobs(case):
             jobs.append({"case": case, "slots": slots, "base": base, "variants": variants,
-                         "malformed": False, "exhaustive": not case.get("aliasless")})
+                         "malformed": False,
+                         "exhaustive": not case.get("aliasless") and not case.get("opparray")})
     terms = []
     for job in jobs:
         case = job["case"]
@@ -781,7 +912,8 @@ def run(tier, seed):
         "top/bottom under label sort, sort by opposing element / opposing derived insertion; left-over "
         "dicts on ~45% of the dimensions (one order dict with element_ids AND fixed lists under type "
         "explicit / label, explicit ids next to sort keys, +- elements dict, insertions, opposing order; "
-        "base = alias spelling, 2-3 re-spelled variants); alias-less arrays (see aliasless_scope); ~15% stale "
+        "base = alias spelling, 2-3 re-spelled variants); alias-less arrays (see aliasless_scope); rows sorted by "
+        "an item of the array on the columns, MR and CA (see opposing_array_item_scope); ~15% stale "
         "and ~10% malformed cases (None, '', '1x', '+1'); non-trivial = a case with >= 1 reference "
         "re-spelled by a non-alias spelling or a translate battery with >= 1 non-alias hit; distinct by "
         "content hash")
@@ -804,6 +936,15 @@ def run(tier, seed):
                                                           sorted(set(ALIASLESS_SVIDS))),
         "dimensions": len(al_cases),
         "jobs": sum(1 for j in jobs if j["case"].get("aliasless"))}
+    rep.cov["opposing_array_item_scope"] = {
+        "scope": "slices with an array dimension on the COLUMNS: layouts %s (MR_SUBVAR, CA_SUBVAR of the "
+                 "transposed array cube, CA_SUBVAR of a 3-D cube) x element ids %s x one item flagged derived or "
+                 "none; every item x rows order {opposing_insertion, opposing_element} x {descending, ascending} x "
+                 "every spelling the model resolves to the item + a stale reference; relational (= alias spelling) "
+                 "and absolute (rows monotone in the measure of the resolved item) oracle"
+                 % (OPPARRAY_LAYOUTS, OPPARRAY_IDS),
+        "dimensions": len(oa_cases),
+        "jobs": sum(1 for j in jobs if j["case"].get("opparray"))}
     rep.cov["datetime"] = dt_stats
     rep.assumptions = [
         "identifiers are int / str (printable ASCII) / None; bool and float ids are outside the model",
@@ -916,21 +1057,35 @@ def check_job(rep, job):
                     rep.violation("impl-vs-model", rcase, {"what": "stale opposing element must fall "
                                   "back to payload order", "impl": out.get(o_read), "payload": pout.get(o_read)},
                                   {"what": "opposing-stale", "cause": cause})
-            elif mo[0] == "ok" and job["base"]["opposing"][0] == "opposing_element" \
-                    and not any(it["derived"] or it["ins"] for it in d["items"]):
+            elif mo[0] == "ok" and (
+                    job["base"]["opposing"][0] == "opposing_element"
+                    # an `opposing_insertion` reference to an ITEM of the array on the columns (there is no
+                    # such translation for an array on the rows: matrix/assembler.py has the derived-column
+                    # helper only) sorts the rows by that item exactly as `opposing_element` does
+                    or (job["base"]["opposing"][0] == "opposing_insertion" and akey == "columns_dimension")) \
+                    and (case.get("opparray") or not any(it["derived"] or it["ins"] for it in d["items"])):
                 # the model resolves the reference to item mo[1] (offset among the valid items): the
                 # opposing dimension must then be sorted by THAT item's measure, whatever the spelling
+                otyp = job["base"]["opposing"][0]
                 bad = opposing_absolute_fail(case, tr, mo[1])
                 if bad is not None and bad.get("skipped"):
                     rep.dist("skipped:opposing-absolute:" + bad["skipped"])
+                    if case.get("opparray"):
+                        rep.dist("opposing-array-item:skipped:" + bad["skipped"])
                 elif bad is not None:
                     rep.violation("impl-vs-model", dict(replayable(case, tr), kind="opposing-absolute",
                                                         opp_item=mo[1]),
-                                  dict(bad, reference=(tr.get(case["okey"]) or {}).get("order", {}).get("element_id"),
-                                       model_item=mo[1]),
+                                  dict(bad, reference=(tr.get(case["okey"]) or {}).get("order", {}).get(
+                                      "element_id" if otyp == "opposing_element" else "insertion_id"),
+                                       sort_type=otyp, model_item=mo[1]),
                                   {"what": "opposing-absolute", "cause": cause})
                 else:
                     rep.dist("checked:opposing-sorted-by-the-resolved-item")
+                    if otyp == "opposing_insertion":
+                        rep.dist("checked:opposing_insertion-sorted-by-the-resolved-array-item")
+                    if case.get("opparray"):
+                        rep.dist("opposing-array-item:checked:%s:%s-columns:sorted-by-the-resolved-item"
+                                 % (otyp, {"mr": "MR_SUBVAR", "ca": "CA_SUBVAR"}[case["kind"]]))
                     if case.get("aliasless"):
                         rep.dist("aliasless:checked:opposing-sorted-by-the-resolved-item")
     # (d) relational oracle: all spellings give identical outputs and identical rewritten dicts
